@@ -8,6 +8,10 @@ Encoded contract (library reference, concurrent.futures):
     value is retrieved from the iterator".
   * submit(fn, *args) schedules the call and returns a Future; Future.result() returns the value or
     re-raises the call's exception.
+  * as_completed(fs) "returns an iterator over the Future instances given by fs that yields futures as they
+    complete"; wait(fs) returns (done, not_done) sets once all have completed (return_when=ALL_COMPLETED).
+    The yield order of as_completed is the COMPLETION order, i.e. the tape-chosen permutation (futures that had
+    already completed come first).
   * nothing is promised about WHEN or in WHICH ORDER the calls run: the model runs the submitted calls
     in an order chosen by the nondeterminism tape (symbolic), before any result is handed out, and
     records that order in EXECUTION_LOG.
@@ -55,6 +59,28 @@ def _run_in_tape_order(futures, tag):
         i = pending.pop(k)
         EXECUTION_LOG.append((tag, i))
         futures[i]._run()
+
+
+def as_completed(fs, timeout=None):
+    futures = list(dict.fromkeys(fs))
+    order = [f for f in futures if f._done]
+    pending = [f for f in futures if not f._done]
+    while pending:
+        k = nondet.choose_int(len(pending), 'as_completed completion order') if len(pending) > 1 else 0
+        f = pending.pop(k)
+        EXECUTION_LOG.append(('as_completed', futures.index(f)))
+        f._run()
+        order.append(f)
+    return iter(order)
+
+
+ALL_COMPLETED, FIRST_COMPLETED, FIRST_EXCEPTION = 'ALL_COMPLETED', 'FIRST_COMPLETED', 'FIRST_EXCEPTION'
+
+
+def wait(fs, timeout=None, return_when=ALL_COMPLETED):
+    futures = list(fs)
+    _run_in_tape_order(futures, 'wait')
+    return set(futures), set()
 
 
 class ExecutorModel:
